@@ -242,6 +242,25 @@ def m_types(ctx, case):
                 ctx.ev()
                 if ri[0] != "ok" or not rel(float(ri[1]), float(rs[1])) <= 1e-8:
                     ctx.violation("integer-arguments-differ-from-float", fn=f, v=xs[k], H=H[k], int_result=repr(ri[1:])[:60], float_result=float(rs[1]))
+        # broadcasting: array speeds at one altitude, one speed at an array of altitudes, 2-D arrays
+        h0, x0 = float(H[0]), xs[0]
+        rb = call(F, x, h0)
+        rc = call(F, x0, Ha)
+        ctx.ev(2)
+        for k in range(len(H)):
+            e1, e2 = call(F, xs[k], h0), call(F, x0, H[k])
+            ok1 = rb[0] == "ok" and np.shape(rb[1]) == np.shape(x) and e1[0] == "ok" and rel(float(rb[1][k]), float(e1[1])) <= 1e-8
+            ok2 = rc[0] == "ok" and np.shape(rc[1]) == np.shape(Ha) and e2[0] == "ok" and rel(float(rc[1][k]), float(e2[1])) <= 1e-8
+            if not (ok1 and ok2):
+                ctx.violation("broadcast-differs-from-scalar", fn=f, k=k, v=xs[k], H=H[k], array_v=repr(rb[1:])[:80], array_H=repr(rc[1:])[:80])
+                break
+        if len(H) % 2 == 0:
+            r2 = call(F, x.reshape(2, -1), Ha.reshape(2, -1))
+            ctx.ev()
+            if r2[0] != "ok" or np.shape(r2[1]) != (2, len(H) // 2) or not np.allclose(np.ravel(r2[1]), ra[1], rtol=1e-8, atol=0, equal_nan=True):
+                ctx.violation("2d-array-differs-from-1d", fn=f, observed=repr(r2[1:])[:120])
+            ctx.hit("two_dimensional")
+        ctx.hit("broadcast")
     # atmosphere with mixed-altitude and integer arrays
     for arr in (Ha, np.array([int(h) for h in H])):
         r = call(aero.atmos, arr)
